@@ -1,1 +1,405 @@
-fn main(){ shuttle::check_dfs(|| { shuttle::thread::yield_now(); }, None); println!("ok"); }
+//! E5 — exhaustive byte-pull interleavings of searches that share one automaton.
+//!
+//! daachorse contains no lock, atomic or cell, so a controlled scheduler sees no scheduling point
+//! inside it. The only seam at which real searches can be interleaved is the byte source of the
+//! `*_from_iter` entry points: the source yields to the scheduler before every byte, so
+//! `shuttle::check_dfs` (exhaustive depth-first search, no sampling) switches threads between any
+//! two bytes of any search.
+
+use daachorse::{
+    CharwiseDoubleArrayAhoCorasick as CA, DoubleArrayAhoCorasick as BA,
+};
+use std::sync::{Arc, Mutex};
+use std::collections::HashSet;
+
+type M = (usize, usize, u32);
+
+#[derive(Clone, Copy, Debug, PartialEq, Eq)]
+enum Method {
+    Find,
+    Ovl,
+    NoSuf,
+}
+impl Method {
+    fn name(self) -> &'static str {
+        match self {
+            Method::Find => "find_iter_from_iter",
+            Method::Ovl => "find_overlapping_iter_from_iter",
+            Method::NoSuf => "find_overlapping_no_suffix_iter_from_iter",
+        }
+    }
+    fn parse(s: &str) -> Method {
+        match s {
+            "find_iter_from_iter" => Method::Find,
+            "find_overlapping_iter_from_iter" => Method::Ovl,
+            _ => Method::NoSuf,
+        }
+    }
+}
+
+enum Auto {
+    B(BA<u32>),
+    C(CA<u32>),
+}
+
+// Compile-time probe: the automata must stay shareable between threads.
+fn _assert_sync_send<T: Sync + Send>() {}
+fn _probe() {
+    _assert_sync_send::<BA<u32>>();
+    _assert_sync_send::<CA<u32>>();
+    _assert_sync_send::<BA<u128>>();
+    _assert_sync_send::<CA<daachorse::Empty>>();
+}
+
+struct YieldingSource<'a> {
+    hay: &'a [u8],
+    pos: usize,
+    tid: u8,
+    // a std mutex on purpose: logging must not add scheduling points
+    log: Option<Arc<Mutex<Vec<u8>>>>,
+}
+impl Iterator for YieldingSource<'_> {
+    type Item = u8;
+    fn next(&mut self) -> Option<u8> {
+        // the scheduling point: any other thread may run before this byte is delivered
+        shuttle::thread::yield_now();
+        let b = *self.hay.get(self.pos)?;
+        self.pos += 1;
+        if let Some(l) = &self.log {
+            l.lock().unwrap().push(self.tid);
+        }
+        Some(b)
+    }
+}
+
+fn run(a: &Auto, m: Method, src: YieldingSource) -> Vec<M> {
+    macro_rules! col {
+        ($it:expr) => {
+            $it.map(|m| (m.start(), m.end(), m.value())).collect()
+        };
+    }
+    match a {
+        Auto::B(a) => match m {
+            Method::Find => col!(a.find_iter_from_iter(src)),
+            Method::Ovl => col!(a.find_overlapping_iter_from_iter(src)),
+            Method::NoSuf => col!(a.find_overlapping_no_suffix_iter_from_iter(src)),
+        },
+        Auto::C(a) => unsafe {
+            match m {
+                Method::Find => col!(a.find_iter_from_iter(src)),
+                Method::Ovl => col!(a.find_overlapping_iter_from_iter(src)),
+                Method::NoSuf => col!(a.find_overlapping_no_suffix_iter_from_iter(src)),
+            }
+        },
+    }
+}
+
+fn run_plain(a: &Auto, m: Method, hay: &[u8]) -> Vec<M> {
+    macro_rules! col {
+        ($it:expr) => {
+            $it.map(|m| (m.start(), m.end(), m.value())).collect()
+        };
+    }
+    match a {
+        Auto::B(a) => match m {
+            Method::Find => col!(a.find_iter(hay)),
+            Method::Ovl => col!(a.find_overlapping_iter(hay)),
+            Method::NoSuf => col!(a.find_overlapping_no_suffix_iter(hay)),
+        },
+        Auto::C(a) => {
+            let s = std::str::from_utf8(hay).unwrap();
+            match m {
+                Method::Find => col!(a.find_iter(s)),
+                Method::Ovl => col!(a.find_overlapping_iter(s)),
+                Method::NoSuf => col!(a.find_overlapping_no_suffix_iter(s)),
+            }
+        }
+    }
+}
+
+fn build(charwise: bool, pats: &[&str]) -> Auto {
+    if charwise {
+        Auto::C(CA::new(pats).unwrap())
+    } else {
+        Auto::B(BA::new(pats).unwrap())
+    }
+}
+
+fn image(a: &Auto) -> Vec<u8> {
+    match a {
+        Auto::B(a) => a.serialize(),
+        Auto::C(a) => a.serialize(),
+    }
+}
+
+struct Harness {
+    charwise: bool,
+    pats: Vec<&'static str>,
+    threads: Vec<(Method, &'static str)>,
+}
+
+struct Stats {
+    schedules: u64,
+    steps: u64,
+    interleavings: HashSet<Vec<u8>>,
+    failure: Option<String>,
+}
+
+/// Explores every schedule of one harness. Returns statistics; a mismatch is recorded.
+fn explore(h: &Harness) -> Stats {
+    let auto = std::sync::Arc::new(build(h.charwise, &h.pats));
+    let img = image(&auto);
+    let expected: Vec<Vec<M>> = h
+        .threads
+        .iter()
+        .map(|(m, hay)| run_plain(&auto, *m, hay.as_bytes()))
+        .collect();
+    let stats = std::sync::Arc::new(std::sync::Mutex::new(Stats {
+        schedules: 0,
+        steps: 0,
+        interleavings: HashSet::new(),
+        failure: None,
+    }));
+    let threads: Vec<(Method, &'static str)> = h.threads.clone();
+    let st = stats.clone();
+    let a0 = auto.clone();
+    let exp = expected.clone();
+    let res = std::panic::catch_unwind(std::panic::AssertUnwindSafe(|| {
+        shuttle::check_dfs(
+            move || {
+                let log = Arc::new(Mutex::new(Vec::<u8>::new()));
+                let mut handles = Vec::new();
+                // searches 1.. run on spawned threads, search 0 on the main thread itself (fewer
+                // scheduling points of the harness, same set of pull interleavings)
+                for (i, (m, hay)) in threads.iter().enumerate().skip(1) {
+                    let a = a0.clone();
+                    let log = log.clone();
+                    let m = *m;
+                    let hay: &'static str = hay;
+                    handles.push(shuttle::thread::spawn(move || {
+                        let src = YieldingSource {
+                            hay: hay.as_bytes(),
+                            pos: 0,
+                            tid: i as u8,
+                            log: Some(log),
+                        };
+                        run(&a, m, src)
+                    }));
+                }
+                let r0 = run(
+                    &a0,
+                    threads[0].0,
+                    YieldingSource {
+                        hay: threads[0].1.as_bytes(),
+                        pos: 0,
+                        tid: 0,
+                        log: Some(log.clone()),
+                    },
+                );
+                let mut results: Vec<Vec<M>> = vec![r0];
+                results.extend(handles.into_iter().map(|h| h.join().unwrap()));
+                let l = log.lock().unwrap().clone();
+                {
+                    let mut s = st.lock().unwrap();
+                    s.schedules += 1;
+                    s.steps += l.len() as u64;
+                    s.interleavings.insert(l.clone());
+                }
+                for (i, r) in results.iter().enumerate() {
+                    if *r != exp[i] {
+                        let mut s = st.lock().unwrap();
+                        s.failure = Some(format!(
+                            "thread {i} ({}) returned {:?} under pull interleaving {:?}; alone it returns {:?}",
+                            threads[i].0.name(), r, l, exp[i]
+                        ));
+                        drop(s);
+                        panic!("interleaving changes a result");
+                    }
+                }
+            },
+            None,
+        );
+    }));
+    let mut s = std::sync::Arc::try_unwrap(stats)
+        .ok()
+        .map(|m| m.into_inner().unwrap())
+        .unwrap_or(Stats {
+            schedules: 0,
+            steps: 0,
+            interleavings: HashSet::new(),
+            failure: Some("stats still shared".into()),
+        });
+    if res.is_err() && s.failure.is_none() {
+        s.failure = Some("the explorer panicked".into());
+    }
+    if image(&auto) != img && s.failure.is_none() {
+        s.failure = Some("the automaton's bytes changed during the searches".into());
+    }
+    s
+}
+
+fn harnesses(thorough: bool) -> Vec<Harness> {
+    let mut v = Vec::new();
+    let ms = [Method::Find, Method::Ovl, Method::NoSuf];
+    for charwise in [false, true] {
+        for (i, &m1) in ms.iter().enumerate() {
+            for &m2 in ms.iter().skip(i) {
+                v.push(Harness {
+                    charwise,
+                    pats: vec!["a", "ab", "bab", "b"],
+                    threads: vec![(m1, "abab"), (m2, "bab")],
+                });
+            }
+        }
+        // the same haystack on both threads (same states visited at the same time)
+        v.push(Harness {
+            charwise,
+            pats: vec!["aa", "a"],
+            threads: vec![(Method::Ovl, "aaa"), (Method::Find, "aaa")],
+        });
+        // three threads
+        v.push(Harness {
+            charwise,
+            pats: vec!["a", "ab", "bab", "b"],
+            threads: vec![(Method::Ovl, "aba"), (Method::Find, "bab"), (Method::NoSuf, "ab")],
+        });
+        if thorough {
+            v.push(Harness {
+                charwise,
+                pats: vec!["a", "ab", "bab", "b"],
+                threads: vec![(Method::Ovl, "ababab"), (Method::NoSuf, "babab")],
+            });
+            v.push(Harness {
+                charwise,
+                pats: vec!["a", "ab", "bab", "b", "abab"],
+                threads: vec![(Method::Ovl, "abab"), (Method::Find, "bab"), (Method::NoSuf, "aba")],
+            });
+            v.push(Harness {
+                charwise,
+                pats: vec!["aa", "a"],
+                threads: vec![(Method::Ovl, "aaaaaaaa"), (Method::Find, "aaaaaaaa")],
+            });
+        }
+    }
+    // multi-byte characters: the decoder pulls 3 bytes per character
+    v.push(Harness {
+        charwise: true,
+        pats: vec!["\u{4e16}", "a\u{4e16}"],
+        threads: vec![(Method::Ovl, "a\u{4e16}"), (Method::Find, "\u{4e16}a")],
+    });
+    v
+}
+
+fn hexs(b: &[u8]) -> String {
+    b.iter().map(|x| format!("{x:02x}")).collect()
+}
+
+fn main() {
+    let args: Vec<String> = std::env::args().collect();
+    let mode = args.get(1).map(String::as_str).unwrap_or("check");
+    if mode == "replay" {
+        // replay file: one harness; explored again exhaustively (tiny) - no schedule string needed
+        let txt = std::fs::read_to_string(&args[2]).expect("replay file");
+        let get = |k: &str| -> Vec<String> {
+            let key = format!("\"{k}\": [");
+            let s = txt.find(&key).map(|i| &txt[i + key.len()..]).unwrap_or("");
+            let e = s.find(']').unwrap_or(0);
+            s[..e]
+                .split(',')
+                .map(|x| x.trim().trim_matches('"').to_string())
+                .filter(|x| !x.is_empty())
+                .collect()
+        };
+        let unhex = |s: &str| -> String {
+            let b: Vec<u8> = (0..s.len() / 2)
+                .map(|i| u8::from_str_radix(&s[2 * i..2 * i + 2], 16).unwrap())
+                .collect();
+            String::from_utf8(b).unwrap()
+        };
+        let pats: Vec<&'static str> = get("patterns")
+            .iter()
+            .map(|p| &*Box::leak(unhex(p).into_boxed_str()))
+            .collect();
+        let hays: Vec<&'static str> = get("haystacks")
+            .iter()
+            .map(|p| &*Box::leak(unhex(p).into_boxed_str()))
+            .collect();
+        let methods: Vec<Method> = get("methods").iter().map(|m| Method::parse(m)).collect();
+        let charwise = txt.contains("\"variant\": \"charwise\"");
+        let h = Harness {
+            charwise,
+            pats,
+            threads: methods.into_iter().zip(hays).collect(),
+        };
+        let s = explore(&h);
+        match s.failure {
+            Some(f) => {
+                println!("replay: {f}");
+                println!("replay: STILL FAILS");
+                std::process::exit(1);
+            }
+            None => {
+                println!("replay: {} schedules, all equal to the solo runs", s.schedules);
+                println!("replay: passes");
+                std::process::exit(0);
+            }
+        }
+    }
+    let thorough = args.get(2).map(String::as_str) == Some("thorough");
+    let hs = harnesses(thorough);
+    let mut schedules = 0u64;
+    let mut steps = 0u64;
+    let mut distinct = 0u64;
+    let mut violations = 0;
+    let mut sample = String::new();
+    // sequential on purpose: concurrent shuttle runners in one process disturb each other
+    let results: Vec<Stats> = (0..hs.len())
+        .map(|n| {
+            let t0 = std::time::Instant::now();
+            let s = explore(&hs[n]);
+            if std::env::var("SCHED_VERBOSE").is_ok() {
+                eprintln!("harness {n}: {} schedules, {} distinct interleavings, {:?}", s.schedules, s.interleavings.len(), t0.elapsed());
+            }
+            s
+        })
+        .collect();
+    for (n, (h, s)) in hs.iter().zip(results).enumerate() {
+        schedules += s.schedules;
+        steps += s.steps;
+        distinct += s.interleavings.len() as u64;
+        if sample.is_empty() {
+            sample = format!(
+                "{{\"variant\":\"{}\",\"patterns\":{:?},\"threads\":{:?},\"schedules\":{},\"distinct_pull_interleavings\":{}}}",
+                if h.charwise { "charwise" } else { "bytewise" },
+                h.pats,
+                h.threads.iter().map(|t| format!("{}({})", t.0.name(), t.1)).collect::<Vec<_>>(),
+                s.schedules,
+                s.interleavings.len()
+            );
+        }
+        if let Some(f) = s.failure {
+            violations += 1;
+            let root = std::env::var("VERIF_ROOT").unwrap_or_else(|_| "/verif".into());
+            let _ = std::fs::create_dir_all(format!("{root}/replays"));
+            let path = format!("{root}/replays/C14-sched-{n}.json");
+            let body = format!(
+                "{{\n \"property\": \"C14\",\n \"engine\": \"sched\",\n \"variant\": \"{}\",\n \"patterns\": [{}],\n \"methods\": [{}],\n \"haystacks\": [{}],\n \"what\": {:?}\n}}\n",
+                if h.charwise { "charwise" } else { "bytewise" },
+                h.pats.iter().map(|p| format!("\"{}\"", hexs(p.as_bytes()))).collect::<Vec<_>>().join(", "),
+                h.threads.iter().map(|t| format!("\"{}\"", t.0.name())).collect::<Vec<_>>().join(", "),
+                h.threads.iter().map(|t| format!("\"{}\"", hexs(t.1.as_bytes()))).collect::<Vec<_>>().join(", "),
+                f
+            );
+            let _ = std::fs::write(&path, body);
+            println!("VIOLATION property=C14 replay={path}");
+            println!("  what: {f}");
+        }
+    }
+    println!(
+        "SCHED-SUMMARY {{\"schedules\":{schedules},\"steps\":{steps},\"harnesses\":{},\"distinct_interleavings\":{distinct},\"bounds\":\"E5 shuttle check_dfs (exhaustive): {} harnesses of 2-3{} threads, yield before every source byte, both variants, all pairs of the three byte-iterator methods\",\"sample\":{sample}}}",
+        hs.len(),
+        hs.len(),
+        if thorough { " (longer haystacks)" } else { "" }
+    );
+    std::process::exit(if violations > 0 { 1 } else { 0 });
+}
